@@ -20,7 +20,7 @@ MODEL = ("props/spec_model.json: frozen specification model, seeded from the pin
          "props/specmodel.py AUDIT); independent of later edits to the tree")
 
 META = {
-    "engines": ["crosshair", "re2z3"],
+    "engines": ["crosshair", "re2z3", "pysym"],
     "level_text": "Bounded symbolic model checking of the table-driven object model in four layers: (a) clean() of every Property class with symbolic "
                   "parameters and values (unbounded ints for ranges, strings <= 4, literal tables for booleans/base64/dictionary keys, 12 types x 7 "
                   "reference configurations) and every syntax regex for ALL strings (regex inclusion); (b) every one of ~1350 property slots of "
@@ -67,6 +67,8 @@ def obligations(tier):
         CH("dictionary_keys_and_emptiness", H, "dict_prop", t, mode="E1s", functions=FP[7:10], bounds="12 keys x 2 versions x empty/non-empty x Dictionary/Hashes/Extensions"),
         CH("binary_property", H, "binary_prop", t, mode="E1s", functions=FP[10:11], bounds="12 base64 / non-base64 literals"),
         CH("reference_property", H, "ref_prop", t, mode="E1s", functions=FP[12:13],            bounds="12 type names x 7 white/black-list configurations x allow_custom"),
+        CH("reference_text_malformed", H, "ref_text", t, mode="E1s", functions=FP[12:13] + ["stix2.properties._validate_id", "stix2.utils.get_type_from_id"],
+           bounds="4 type names x 7 configurations x 9 insertions between type and UUID (extra '--' segments, spaces) x 5 tails x both versions x allow_custom: never accepted"),
     ] + [
         CH("constructor_engine_p%02d" % q, H, "engine", t, functions=FE, stubs=[FMT], env={"VERIF_PART": str(q)},
            bounds="synthetic class, partition embedded-kind %d / tags-kind %d: presence/None/[] per property, unbounded int, str <= 2, custom property, "
@@ -81,6 +83,9 @@ def obligations(tier):
         JOB("regex_selector", "props.j_regex", "job_selector", 120, engine="re2z3", functions=FP[14:15], bounds="all strings"),
         JOB("strict_id_language", "props.j_ids", "job_id_language", 300, engine="re2z3", functions=FP[16:18], bounds="all strings, both versions"),
     ]
+    from props import C15
+    # timestamp values: what a timestamp slot emits has exactly / at least the digits its precision demands, whatever kind of value came in
+    obls += [o for o in C15.obligations(tier) if o.name in ("timestamp_property_clean", "format_is_canonical_truncated")]
     H4 = "props.h_C04"
     F4 = ["stix2.properties." + n + ".clean" for n in ("ListProperty", "EmbeddedObjectProperty", "ExtensionsProperty", "HashesProperty")]
     obls += [     # nested custom content is refused in strict mode (harnesses shared with C04; they also assert the flag)
